@@ -37,6 +37,7 @@ static unsigned short generate_unique_qid(ares_channel_t *channel)
   unsigned short id;
 
   do {
+    ARES_VERIF_RAND_PURPOSE(ARES_VERIF_RAND_QID);
     id = ares_generate_new_id(channel->rand_state);
   } while (ares_htable_szvp_get(channel->queries_by_qid, id, NULL));
 
@@ -77,6 +78,7 @@ static ares_status_t ares_apply_dns0x20(ares_channel_t    *channel,
    * is 1 bit per byte */
   total_bits     = ((len + 7) / 8) * 8;
   remaining_bits = total_bits;
+  ARES_VERIF_RAND_PURPOSE(ARES_VERIF_RAND_DNS0X20);
   ares_rand_bytes(channel->rand_state, randdata, total_bits / 8);
 
   /* Randomly apply 0x20 to name */
